@@ -32,11 +32,14 @@ pub const RANK_STRUCTS: &[&str] = &[
     // rank structures under selection wrappers
     "sa(rank9)", "sac(rank9)", "sza(sa(rank9))", "select9", "ss0", "ss1", "ss2", "ss3", "ss4", "szs0(ss0)", "szs3(ss3)", "rank9(sa)", "ranksmall2(sza(sa))", "sza(select9)",
     "szac(sac(ranksmall4))", "map:sa->rank9", "map:sac62->ranksmall1", "map:rank9->sa", "map:ranksmall3->sza",
+    // the same structures over boxed and borrowed bit vectors
+    "box:rank9", "box:ranksmall1", "box:ranksmall4", "ref:rank9", "ref:ranksmall2", "box:select9", "ref:ss2", "box:sza(sa(rank9))",
 ];
 pub const SELECT_STRUCTS: &[&str] = &[
     "sa", "sa_span", "sac", "sac_6_0", "sac_8_2", "sac_4_1", "sac_10_3", "sza", "szac", "szac_6_0", "szac_9_2", "select9", "ss0", "ss1", "ss2", "ss3", "ss4", "szs0", "szs1", "szs2", "szs3",
     "szs4", "sa(rank9)", "sac(rank9)", "sza(sa)", "szac(sac)", "sza(sa(rank9))", "szs0(ss0)", "szs3(ss3)", "sza(select9)", "rank9(sa)", "ranksmall2(sza(sa))", "szac(sac(ranksmall4))", "sa(sza)",
     "ss1(ranksmall1)+sza", "map:sa->rank9", "map:sac62->ranksmall1", "map:szac51->sac", "map:sza->sa", "map:rank9->sa", "map:ranksmall3->sza", "map:sac->addnumbits",
+    "box:sa", "ref:sa", "box:sac", "box:sza", "ref:szac", "box:select9", "ref:select9", "box:ss3", "ref:szs1", "box:sza(sa)", "ref:ss2", "box:sza(sa(rank9))",
 ];
 
 fn bit_of(c: &RanksCase, i: usize, total: usize) -> bool {
@@ -511,6 +514,36 @@ fn run_structure(prop: &str, c: &RanksCase, bv: BitVec<Vec<usize>>, m: &Model, o
     let blocks = 1 + p3 % 20;
     set_op(&format!("build:{name}"));
     match name {
+        n if n.starts_with("box:") => {
+            let bvb: BitVec<Box<[usize]>> = bv.into();
+            match &n[4..] {
+                "rank9" => rank_only!(Rank9::new(bvb)),
+                "ranksmall1" => rank_only!(RankSmall::<1, 9, _>::new(bvb)),
+                "ranksmall4" => rank_only!(RankSmall::<3, 13, _>::new(bvb)),
+                "select9" => rank_sel!(Select9::new(Rank9::new(bvb))),
+                "sza(sa(rank9))" => rank_sel_selz!(SelectZeroAdapt::with_inv(SelectAdapt::with_inv(Rank9::new(bvb), inv, sub), (inv + 5) % 17, sub)),
+                "sa" => sel!(SelectAdapt::with_inv(AddNumBits::from(bvb), inv, sub)),
+                "sac" => sel!(SelectAdaptConst::<_, _>::new(AddNumBits::from(bvb))),
+                "sza" => selz!(SelectZeroAdapt::with_inv(AddNumBits::from(bvb), inv, sub)),
+                "ss3" => rank_sel!(SelectSmall::<1, 11, _>::with_inv(RankSmall::<1, 11, _>::new(bvb), blocks)),
+                "sza(sa)" => sel_selz!(SelectZeroAdapt::with_inv(SelectAdapt::with_inv(AddNumBits::from(bvb), inv, sub), (inv + 3) % 17, (sub + 1) % 6)),
+                other => panic!("unknown boxed structure {other}"),
+            }
+        }
+        n if n.starts_with("ref:") => {
+            let (words, l) = bv.into_raw_parts();
+            let bvr: BitVec<&[usize]> = unsafe { BitVec::from_raw_parts(&words[..], l) };
+            match &n[4..] {
+                "rank9" => rank_only!(Rank9::new(bvr)),
+                "ranksmall2" => rank_only!(RankSmall::<1, 10, _>::new(bvr)),
+                "ss2" => rank_sel!(SelectSmall::<1, 10, _>::with_inv(RankSmall::<1, 10, _>::new(bvr), blocks)),
+                "sa" => sel!(SelectAdapt::with_inv(AddNumBits::from(bvr), inv, sub)),
+                "szac" => selz!(SelectZeroAdaptConst::<_, _>::new(AddNumBits::from(bvr))),
+                "select9" => rank_sel!(Select9::new(Rank9::new(bvr))),
+                "szs1" => selz!(SelectZeroSmall::<1, 9, _>::with_inv(RankSmall::<1, 9, _>::new(bvr), blocks)),
+                other => panic!("unknown borrowed structure {other}"),
+            }
+        }
         "rank9" => rank_only!(Rank9::new(bv)),
         "ranksmall0" => rank_only!(RankSmall::<2, 9>::new(bv)),
         "ranksmall1" => rank_only!(RankSmall::<1, 9>::new(bv)),
